@@ -110,9 +110,75 @@ impl Opts {
     }
 }
 
+// ---------------------------------------------------------------------------------------------
+// watchdog: an implementation that no longer terminates on a case (a changed loop condition, a parser
+// that spins) must not hang the check for its whole time-out
+
+use std::sync::Mutex;
+use std::time::{Duration, Instant};
+
+struct Watch {
+    since: Option<Instant>,
+    /// the case text, when the caller gave it (`watch_case`), and its own limit
+    case: Option<(String, u64)>,
+    started: bool,
+}
+static WATCH: Mutex<Watch> = Mutex::new(Watch { since: None, case: None, started: false });
+
+fn limit_default() -> u64 {
+    std::env::var("VERIF_CASE_TIMEOUT_S").ok().and_then(|s| s.parse().ok()).unwrap_or(600)
+}
+
+fn start_watchdog() {
+    std::thread::spawn(|| {
+        loop {
+            std::thread::sleep(Duration::from_millis(500));
+            let w = WATCH.lock().unwrap();
+            let Some(t) = w.since else { continue };
+            let limit = w.case.as_ref().map(|c| c.1).unwrap_or_else(limit_default);
+            if t.elapsed() < Duration::from_secs(limit) {
+                continue;
+            }
+            match &w.case {
+                Some((case, _)) => {
+                    // a result line like any other: the model never prints HANG, the oracle column fails;
+                    // the cases after this one are not run
+                    println!("{case}\tHANG\tFAIL:no-result-within-{limit}s");
+                    std::process::exit(0);
+                }
+                None => {
+                    eprintln!("harness watchdog: one case has been running for more than {limit} s (the implementation does not terminate on it?)");
+                    std::process::exit(3);
+                }
+            }
+        }
+    });
+}
+
+/// Names the case the next `guarded` call runs and gives it a time limit in seconds: if the limit
+/// passes, the line `<case> HANG FAIL:…` is printed and the process ends.
+pub fn watch_case(case: &str, limit_s: u64) {
+    let limit = std::env::var("VERIF_CASE_TIMEOUT_S").ok().and_then(|s| s.parse().ok()).unwrap_or(limit_s);
+    WATCH.lock().unwrap().case = Some((case.to_string(), limit));
+}
+
 /// Runs `f`, turning a panic into the observation `PANIC` (no model ever prints that).
 pub fn guarded<F: FnOnce() -> String>(f: F) -> String {
-    match catch_unwind(AssertUnwindSafe(f)) {
+    {
+        let mut w = WATCH.lock().unwrap();
+        if !w.started {
+            w.started = true;
+            start_watchdog();
+        }
+        w.since = Some(Instant::now());
+    }
+    let r = catch_unwind(AssertUnwindSafe(f));
+    {
+        let mut w = WATCH.lock().unwrap();
+        w.since = None;
+        w.case = None;
+    }
+    match r {
         Ok(s) => s,
         Err(e) => {
             let msg = if let Some(s) = e.downcast_ref::<&str>() {
